@@ -26,6 +26,7 @@ package dragonboat
 // is replicated.
 
 import (
+	"sort"
 	"sync"
 
 	"github.com/lni/dragonboat/v4/internal/logdb"
@@ -385,9 +386,10 @@ func (d *VerifDriver) runStep(ev VerifEvent, l *verifLoop) {
 	switch ev.Kind {
 	case VStepTicker:
 		l.nodes, l.cci = e.loadStepNodes(w, l.cci, l.nodes)
-		a := make(map[uint64]struct{})
-		if err := e.processSteps(w, a, l.nodes, l.updates, stopC); err != nil {
-			panicNow(err)
+		for _, a := range verifSingletons(nil, l.nodes) {
+			if err := e.processSteps(w, a, l.nodes, l.updates, stopC); err != nil {
+				panicNow(err)
+			}
 		}
 	case VStepCCI:
 		verifTake(e.stepCCIReady.waitCh(w))
@@ -397,9 +399,10 @@ func (d *VerifDriver) runStep(ev VerifEvent, l *verifLoop) {
 		if l.cci == 0 || len(l.nodes) == 0 {
 			l.nodes, l.cci = e.loadStepNodes(w, l.cci, l.nodes)
 		}
-		a := e.stepWorkReady.getReadyMap(w)
-		if err := e.processSteps(w, a, l.nodes, l.updates, stopC); err != nil {
-			panicNow(err)
+		for _, a := range verifSingletons(e.stepWorkReady.getReadyMap(w), l.nodes) {
+			if err := e.processSteps(w, a, l.nodes, l.updates, stopC); err != nil {
+				panicNow(err)
+			}
 		}
 	}
 }
@@ -410,7 +413,9 @@ func (d *VerifDriver) runCommit(ev VerifEvent, l *verifLoop) {
 	switch ev.Kind {
 	case VCommitTicker:
 		l.nodes, l.cci = e.loadCommitNodes(w, l.cci, l.nodes)
-		e.processCommits(make(map[uint64]struct{}), l.nodes)
+		for _, a := range verifSingletons(nil, l.nodes) {
+			e.processCommits(a, l.nodes)
+		}
 	case VCommitCCI:
 		verifTake(e.commitCCIReady.waitCh(w))
 		l.nodes, l.cci = e.loadCommitNodes(w, l.cci, l.nodes)
@@ -419,8 +424,9 @@ func (d *VerifDriver) runCommit(ev VerifEvent, l *verifLoop) {
 		if l.cci == 0 || len(l.nodes) == 0 {
 			l.nodes, l.cci = e.loadCommitNodes(w, l.cci, l.nodes)
 		}
-		active := e.commitWorkReady.getReadyMap(w)
-		e.processCommits(active, l.nodes)
+		for _, a := range verifSingletons(e.commitWorkReady.getReadyMap(w), l.nodes) {
+			e.processCommits(a, l.nodes)
+		}
 	}
 }
 
@@ -430,9 +436,10 @@ func (d *VerifDriver) runApply(ev VerifEvent, l *verifLoop) {
 	switch ev.Kind {
 	case VApplyTicker:
 		l.nodes, l.cci = e.loadApplyNodes(w, l.cci, l.nodes)
-		a := make(map[uint64]struct{})
-		if err := e.processApplies(a, l.nodes, l.batch, l.entries); err != nil {
-			panicNow(err)
+		for _, a := range verifSingletons(nil, l.nodes) {
+			if err := e.processApplies(a, l.nodes, l.batch, l.entries); err != nil {
+				panicNow(err)
+			}
 		}
 	case VApplyCCI:
 		verifTake(e.applyCCIReady.waitCh(w))
@@ -442,9 +449,10 @@ func (d *VerifDriver) runApply(ev VerifEvent, l *verifLoop) {
 		if l.cci == 0 || len(l.nodes) == 0 {
 			l.nodes, l.cci = e.loadApplyNodes(w, l.cci, l.nodes)
 		}
-		a := e.applyWorkReady.getReadyMap(w)
-		if err := e.processApplies(a, l.nodes, l.batch, l.entries); err != nil {
-			panicNow(err)
+		for _, a := range verifSingletons(e.applyWorkReady.getReadyMap(w), l.nodes) {
+			if err := e.processApplies(a, l.nodes, l.batch, l.entries); err != nil {
+				panicNow(err)
+			}
 		}
 	}
 }
@@ -457,7 +465,7 @@ func (d *VerifDriver) runPool(ev VerifEvent) {
 		verifTake(p.saveReady.waitCh(1))
 		shards := p.saveReady.getReadyMap(1)
 		p.loadNodes()
-		for cid := range shards {
+		for _, cid := range verifSortedIDs(shards) {
 			if j, ok := p.getSaveJob(cid); ok {
 				p.pending = append(p.pending, j)
 				toSchedule = true
@@ -467,7 +475,7 @@ func (d *VerifDriver) runPool(ev VerifEvent) {
 		verifTake(p.recoverReady.waitCh(1))
 		shards := p.recoverReady.getReadyMap(1)
 		p.loadNodes()
-		for cid := range shards {
+		for _, cid := range verifSortedIDs(shards) {
 			if j, ok := p.getRecoverJob(cid); ok {
 				p.pending = append(p.pending, j)
 				toSchedule = true
@@ -477,7 +485,7 @@ func (d *VerifDriver) runPool(ev VerifEvent) {
 		verifTake(p.streamReady.waitCh(1))
 		shards := p.streamReady.getReadyMap(1)
 		p.loadNodes()
-		for cid := range shards {
+		for _, cid := range verifSortedIDs(shards) {
 			if j, ok := p.getStreamJob(cid); ok {
 				p.pending = append(p.pending, j)
 				toSchedule = true
@@ -536,21 +544,22 @@ func (e *engine) verifClose() error {
 	d.mu.Unlock()
 	for _, l := range d.step {
 		l.wg.Wait()
-		e.offloadNodeMap(l.nodes)
+		verifOffloadNodeMap(l.nodes)
 	}
 	for _, l := range d.commit {
 		l.wg.Wait()
-		e.offloadNodeMap(l.nodes)
+		verifOffloadNodeMap(l.nodes)
 	}
 	for _, l := range d.apply {
 		l.wg.Wait()
-		e.offloadNodeMap(l.nodes)
+		verifOffloadNodeMap(l.nodes)
 	}
 	d.poolWG.Wait()
 	d.ssWG.Wait()
 	// snapshot jobs handed to a worker but not started yet are dropped when
 	// the worker stopper fires
-	e.wp.unloadNodes()
+	verifOffloadNodeMap(e.wp.nodes)
+	verifOffloadNodeMap(e.wp.busy)
 	// closeWorkerPool.timedWait
 	p := e.cp
 	select {
@@ -679,4 +688,109 @@ func verifKeySeed(shardID uint64, replicaID uint64, shard uint64) (int64, bool) 
 		return f(shardID, replicaID, shard), true
 	}
 	return 0, false
+}
+
+//
+// ordering seams: with more than one shard on a NodeHost the shipped loops
+// walk Go maps of nodes; in a simulated run every such walk is made in shard
+// id order so that the run is a function of its seed
+//
+
+func verifSortedIDs(m map[uint64]struct{}) []uint64 {
+	ids := make([]uint64, 0, len(m))
+	for k := range m {
+		ids = append(ids, k)
+	}
+	sort.Slice(ids, func(i, j int) bool { return ids[i] < ids[j] })
+	return ids
+}
+
+// verifSingletons splits the set of shards a worker was woken up for (all the
+// loaded ones when active is empty, as in the shipped process* functions)
+// into one set per shard, in shard id order. The worker then handles the
+// shards one after the other, which is one of the orders the shipped loop may
+// take; a batch made of the updates of several shards is not formed.
+func verifSingletons(active map[uint64]struct{},
+	nodes map[uint64]*node) []map[uint64]struct{} {
+	if len(nodes) == 0 {
+		return nil
+	}
+	if len(active) == 0 {
+		active = make(map[uint64]struct{}, len(nodes))
+		for cid := range nodes {
+			active[cid] = struct{}{}
+		}
+	}
+	if len(active) == 1 {
+		return []map[uint64]struct{}{active}
+	}
+	r := make([]map[uint64]struct{}, 0, len(active))
+	for _, cid := range verifSortedIDs(active) {
+		r = append(r, map[uint64]struct{}{cid: {}})
+	}
+	return r
+}
+
+func verifSortNodes(nodes []*node) {
+	sort.Slice(nodes, func(i, j int) bool {
+		return nodes[i].shardID < nodes[j].shardID
+	})
+}
+
+func verifSortedNodes(m map[uint64]*node) []*node {
+	r := make([]*node, 0, len(m))
+	for _, n := range m {
+		r = append(r, n)
+	}
+	sort.Slice(r, func(i, j int) bool {
+		if r[i].shardID != r[j].shardID {
+			return r[i].shardID < r[j].shardID
+		}
+		return r[i].instanceID < r[j].instanceID
+	})
+	return r
+}
+
+// verifOffloadNodeMap is engine.offloadNodeMap / workerPool.unloadNodes in
+// shard id order.
+func verifOffloadNodeMap(nodes map[uint64]*node) {
+	for _, n := range verifSortedNodes(nodes) {
+		n.offloaded()
+	}
+}
+
+// verifOffloadMissing does, in shard id order, what the loop that follows it
+// in workerPool.loadNodes does: nodes no longer present are offloaded. They
+// are removed from the returned map so that the shipped loop finds nothing
+// left to do.
+func verifOffloadMissing(nodes map[uint64]*node,
+	newNodes map[uint64]*node) map[uint64]*node {
+	r := make(map[uint64]*node, len(nodes))
+	for cid, n := range nodes {
+		r[cid] = n
+	}
+	for _, n := range verifSortedNodes(nodes) {
+		if _, ok := newNodes[n.shardID]; !ok {
+			n.offloaded()
+			delete(r, n.shardID)
+		}
+	}
+	return r
+}
+
+// verifForEachShard is forEachShard (nh.mu is read locked by the caller) in
+// shard id order.
+func (nh *NodeHost) verifForEachShard(f func(uint64, *node) bool) uint64 {
+	nodes := make([]*node, 0, 4)
+	nh.mu.shards.Range(func(k, v interface{}) bool {
+		nodes = append(nodes, v.(*node))
+		return true
+	})
+	verifSortNodes(nodes)
+	for _, n := range nodes {
+		if !f(n.shardID, n) {
+			break
+		}
+	}
+	return nh.mu.cci
 }
